@@ -33,7 +33,7 @@ RULE = (
     "option strings: per grammar (timeout, csv-int, error codes, array lengths, trace events) valid strings from unparse of "
     "random values, hand-listed malformed strings and random character mutations; distinct by string. "
     "timeouts: every k ms for k in [0,10^5] through the real parse/unparse/parse plus decimal strings with units. "
-    "TOML: every Config option x every native toml value form (bare ints/floats/bools/arrays/tables/dates and quoted strings) through the real parse_str, then random TOML dicts; natspec texts, devdoc/natspec annotated artifacts through the real with_natspec/with_devdoc/run_tests/_main loops."
+    "TOML: every Config option x every native toml value form (bare ints/floats/bools/arrays/tables/dates and quoted strings) through the real parse_str, then random TOML dicts (documented exclusion: generated documents never give array-lengths a falsy native value 0/0.0/false/[]/{} - that known finding is exercised by its directed corpus case only); natspec texts, devdoc/natspec annotated artifacts through the real with_natspec/with_devdoc/run_tests/_main loops."
 )
 TRUSTED = [
     "Driver/Config.lean string/token (de)serialisation and tools/props/c18.py canonicalisers and grammar oracles",
@@ -1020,6 +1020,15 @@ TOML_ACTIONS = {"panic_error_codes": "codes", "array_lengths": "lengths", "defau
                 "trace_events": "events", "solver_timeout_branching": "timeout", "solver_timeout_assertion": "timeout"}
 
 
+def excluded_falsy_lengths(doc) -> bool:
+    """Documented exclusion (known finding TomlParser.parse_dict:falsy-native:lengths:accepts-malformed, seen through its directed
+    corpus case only): generated documents never give array-lengths (either spelling) a falsy native value (0, 0.0, false, [], {})."""
+    g = doc.get("global") if isinstance(doc, dict) else None
+    if not isinstance(g, dict):
+        return False
+    return any(k.replace("-", "_") == "array_lengths" and not isinstance(v, str) and not v for k, v in g.items())
+
+
 def toml_req(doc: dict) -> str:
     parts = ["toml"]
     for sec, data in doc.items():
@@ -1160,8 +1169,8 @@ def check_toml_docs(ctx, docs, origin="gen", texts=None):
             ctx.count(f"toml.form.{kind}.{form}.rejected")
             if real[0] == "ok":
                 raw = doc["global"][k]
-                if kind == "lengths" and not isinstance(raw, str) and not raw and real[1].get(k.replace("-", "_")) == {} \
-                        and isinstance(real[1].get(k.replace("-", "_")), dict):
+                if origin == "replay" and kind == "lengths" and not isinstance(raw, str) and not raw \
+                        and real[1].get(k.replace("-", "_")) == {} and isinstance(real[1].get(k.replace("-", "_")), dict):
                     # silently defaulted to "no lengths" (ParseArrayLengths.parse: `if not values: return {}`)
                     ctx.count(f"toml.falsy-native-lengths.{form}")
                     ctx.violation("TomlParser.parse_dict:falsy-native:lengths:accepts-malformed",
@@ -1254,8 +1263,12 @@ def check_toml_native(ctx, pool):
         for j, form in enumerate(forms):
             key = name.replace("_", "-") if (i + j) % 3 else name
             text = f"[global]\n{key} = {form}\n"
+            d = toml.loads(text)
+            if excluded_falsy_lengths(d):
+                ctx.count("toml.excluded.falsy-native-lengths")
+                continue
             texts.append(text)
-            docs.append(toml.loads(text))
+            docs.append(d)
     # a structured option next to others, and the same option under both spellings
     for form in ("1000", "2.5", '"7s"'):
         text = f"[global]\nloop = 3\nsolver-timeout-assertion = {form}\nsolver_timeout_branching = {form}\nsolver-timeout_assertion = 9\n"
@@ -1270,12 +1283,16 @@ def check_toml(ctx, pool):
         {"global": {}}, {}, {"global": {"loop": 3}}, {"weird": {"a": 1}}, {"global": {"a": 1}, "extra": {"b": 2}}, {"a": 1, "b": 2},
         {"global": {"solver-timeout-assertion": "1.5s", "panic-error-codes": "*", "array-lengths": "x={1,2}"}},
         {"global": {"solver-timeout-assertion": 1500}}, {"global": {"solver-timeout-assertion": 1.5}}, {"global": {"solver-timeout-assertion": True}},
-        {"global": {"panic-error-codes": 1}}, {"global": {"array-lengths": 0}}, {"global": {"array-lengths": 5}}, {"global": {"array-lengths": ""}},
+        {"global": {"panic-error-codes": 1}}, {"global": {"array-lengths": 5}}, {"global": {"array-lengths": ""}},
         {"global": {"default-array-lengths": ""}}, {"global": {"trace-events": "log"}}, {"global": {"unknown-key": 1}},
         {"global": {"solver-threads": 1, "solver_threads": 2}}, {"global": 5}, {"global": {"loop": "abc"}},
     ]
     for _ in range(ctx.scale(600, 12000)):
-        docs.append(gen_toml(ctx.rng, pool))
+        d = gen_toml(ctx.rng, pool)
+        while excluded_falsy_lengths(d):
+            ctx.count("toml.excluded.falsy-native-lengths")
+            d = gen_toml(ctx.rng, pool)
+        docs.append(d)
     check_toml_docs(ctx, docs)
 
 
